@@ -83,7 +83,7 @@ func newMultiEnv(r *Run, sim *verifsim.Sim, n int, unixMix int) *multiEnv {
 func scenC16Socket(r *Run, sub int) {
 	n := 2 + sub%3
 	unixMix := (sub / 3) % (1 << uint(n)) // every mix of tcp and unix URLs
-	plug := []string{"broadcast", "forking", "failover"}[(sub/24)%3]
+	plug := []string{"broadcast", "forking", "failover", "close-before-answer"}[(sub/24)%4]
 	r.Param("servers", n)
 	r.Param("unix_mask", unixMix)
 	r.Param("plugin", plug)
@@ -95,6 +95,15 @@ func scenC16Socket(r *Run, sub int) {
 		e.client.Use(cluster.Broadcast)
 	case "forking":
 		e.client.Use(cluster.Forking)
+	case "close-before-answer":
+		// no cluster plugin, or one that must not retry: the server executes the call and its connection closes,
+		// gracefully, before the answer goes out. Whether the call was executed the caller cannot know - so it
+		// may not be sent again
+		if sub%2 == 0 {
+			e.client.Use(cluster.New(cluster.FailtryConfig(cluster.WithRetry(3), cluster.WithIdempotent(false), cluster.WithMinInterval(time.Millisecond))).Handler)
+		}
+		e.client.URLs = e.client.URLs[:1]
+		e.net.AddFault(0, "s2c", 0, "close")
 	case "failover":
 		e.client.Use(cluster.New(cluster.FailoverConfig(cluster.WithRetry(n), cluster.WithIdempotent(true), cluster.WithMinInterval(time.Millisecond), cluster.WithMaxInterval(10*time.Millisecond))).Handler)
 		// the first server accepts and then never answers (its connection stays open): every attempt there ends
@@ -144,6 +153,15 @@ func scenC16Socket(r *Run, sub int) {
 			case "forking":
 				if err != nil || len(res) != 1 || !strings.HasSuffix(fmt.Sprint(res[0]), fmt.Sprintf(":%d", k)) {
 					r.Fail("C16:forking-failed:socket", "%d healthy servers %v, call %d: result %v err %v", n, e.urls, k, res, err)
+					return
+				}
+			case "close-before-answer":
+				if e.counts[0] > k+1 {
+					r.Fail("C16:non-idempotent-call-sent-again:socket", "the server executed call %d and closed the connection before answering (the caller got result %v err %v): the call was executed %d times in all, the transport sent it again", k, res, err, e.counts[0]-k)
+					return
+				}
+				if k == 0 && err == nil {
+					r.Fail("C16:wrong-result:socket", "the connection closed before the answer to call 0, which returned %v without error", res)
 					return
 				}
 			case "failover":
